@@ -43,7 +43,7 @@ theorem entry_guard_observer {p : Prog} {B pc ok k : Nat} {m : Mem} (hp : Placed
 arguments, word size and stack size) perform the same events and both end in the terminal loop. -/
 theorem core_unchecked_same (w S : Nat) (args : List Int) (pr : Core.CProg) (hw : 2 ≤ w)
     (hB1 : Core.progLen true pr + stdlibLength < 256 ^ w) (hB0 : Core.progLen false pr + stdlibLength < 256 ^ w)
-    (hSE : 5 * w + S * w + args.length * w + w < 256 ^ w)
+    (hSE : 5 * w + S * w + args.length * w + w + Core.regsLen w pr < 256 ^ w)
     (hwf : Core.wfProg pr = true) (hlen : args.length = pr.params.length)
     (fuel : Nat) (env' : Core.Env) (tr : List Ev) (res : Core.Res)
     (hex : Core.srcRun ⟨w, S, true⟩ fuel args pr = some (env', tr, res))
